@@ -97,14 +97,16 @@ theorem load_failure_preserves (ord : Ord) (cbs : Cbs) (name : Name) (avail : Op
       · simp [h0, h1]
       · by_cases h2 : f.importOther = true
         · simp [h0, h1, h2]
-        · by_cases h3 : f.ctorRaises = true
-          · simp [h0, h1, h2, h3]
-          · cases he : addCallback ord cbs p with
-            | error e =>
-              obtain ⟨er, c'⟩ := e
-              simp only [h0, h1, h2, h3, he, Bool.false_eq_true, if_false]
-              exact addCallback_error he
-            | ok c' => simp [h0, h1, h2, h3, he] at h
+        · by_cases hd : (f.deprecated && !f.ignoreDeprecation) = true
+          · simp only [h0, h1, h2, hd, Bool.false_eq_true, if_false, if_true]
+          · by_cases h3 : f.ctorRaises = true
+            · simp only [h0, h1, h2, hd, h3, Bool.false_eq_true, if_false, if_true]
+            · cases he : addCallback ord cbs p with
+              | error e =>
+                obtain ⟨er, c'⟩ := e
+                simp only [h0, h1, h2, hd, h3, he, Bool.false_eq_true, if_false]
+                exact addCallback_error he
+              | ok c' => simp only [h0, h1, h2, hd, h3, he, Bool.false_eq_true, if_false] at h; exact absurd rfl h
 
 /-- **owner_stays.**  `unload` and `reload` of the core dispatcher plugin (any capitalisation) are
 refused with an error and change nothing. -/
@@ -158,13 +160,14 @@ theorem history_inv (cbs : Cbs) (g : Good cbs) (o : Plugin) (hm : o ∈ cbs) (hk
     exact ih _ h.1 h.2 (fun c hc => hord c (mem_cons_of_mem _ hc))
 
 /-- **reload_failure_preserves.**  `reload` of a loaded plugin whose module cannot be imported any
-more — `ImportError`, no such plugin, or any other exception while importing (syntax error …) —
+more — `ImportError`, deprecated without `--deprecated`, no such plugin, or any other exception
+while importing (syntax error …) —
 answers with an error and leaves exactly the previously registered plugins registered: the old
 instance, untouched so far, is put back (its position may change, all constraints still hold). -/
 theorem reload_failure_preserves {ord : Ord} (ho : OrdOk ord) {cbs : Cbs} (g : Good cbs) (name : Name)
     (avail : Option Plugin) (f : Faults) (hno : isOwnerName name = false)
     (hl : (getCallback cbs name).isSome)
-    (hf : f.importError = true ∨ avail = none ∨ f.importOther = true) :
+    (hf : f.importError = true ∨ f.deprecated = true ∨ avail = none ∨ f.importOther = true) :
     (reload ord cbs name avail f).1 ≠ .success ∧ (reload ord cbs name avail f).2.Perm cbs ∧
     Good (reload ord cbs name avail f).2 := by
   obtain ⟨q, hq⟩ := Option.isSome_iff_exists.mp hl
@@ -190,16 +193,64 @@ theorem reload_failure_preserves {ord : Ord} (ho : OrdOk ord) {cbs : Cbs} (g : G
     by_cases hcond : (f.importError || avail.isNone) = true
     · left
       simp only [hno, Bool.false_eq_true, if_false, hbad, isEmpty_cons, hcond, if_true, readd, hr]
-    · right
-      have ho' : f.importOther = true := by
-        rcases hf with h | h | h
-        · simp [h] at hcond
-        · simp [h] at hcond
-        · exact h
-      simp only [hno, Bool.false_eq_true, if_false, hbad, isEmpty_cons, hcond, ho', if_true, readd, hr]
+    · by_cases ho' : f.importOther = true
+      · right
+        simp only [hno, Bool.false_eq_true, if_false, hbad, isEmpty_cons, hcond, ho', if_true, readd, hr]
+      · left
+        have hd : f.deprecated = true := by
+          rcases hf with h | h | h | h
+          · simp [h] at hcond
+          · exact h
+          · simp [h] at hcond
+          · exact absurd h ho'
+        simp only [hno, Bool.false_eq_true, if_false, hbad, isEmpty_cons, hcond, ho', hd, if_true, readd, hr]
   refine ⟨?_, ?_, (reload_good ho g name avail f).1⟩
   · rcases heq with h | h <;> rw [h] <;> simp
   · rcases heq with h | h <;> rw [h] <;> exact hrp.trans hperm
+
+/-! ### persisted flags and the start-up loader (`Owner._loadPlugins`, run when a network connects) -/
+
+/-- **startup_inv.**  The start-up loader keeps the invariant (unique names, all constraints,
+hence Owner first), never drops a registered plugin, and everything it adds is a plugin found on
+disk under a name whose flag `supybot.plugins.<Name>` is set (or that is "important" while
+`alwaysLoadImportant` is on) — whatever fails on the way (every failure is swallowed). -/
+theorem startup_inv {ord : Ord} (ho : OrdOk ord) (env : Env) (b : Bot) (g : Good b.cbs) :
+    Good (startup ord env b).cbs ∧ (∀ q ∈ b.cbs, q ∈ (startup ord env b).cbs) ∧
+    (∀ q ∈ (startup ord env b).cbs, q ∈ b.cbs ∨ ∃ x ∈ b.flags, Wanted env x ∧ env.disk x.1 = some q) ∧
+    (startup ord env b).flags = b.flags :=
+  ⟨(startup_fold ho env _ g).1, (startup_fold ho env _ g).2.1,
+   fun q hq => ((startup_fold ho env _ g).2.2 q hq).imp id
+     fun ⟨x, hx, hw⟩ => ⟨x, mem_sortedFlags.mp hx, hw⟩, rfl⟩
+
+/-- **unloaded_stays_out.**  A plugin that is not registered, whose flag is off and that is not
+forced by `alwaysLoadImportant`, is not brought back by a reconnect. -/
+theorem unloaded_stays_out {ord : Ord} (ho : OrdOk ord) (env : Env) (b : Bot) (g : Good b.cbs) (q : Plugin)
+    (hq : q ∉ b.cbs) (hoff : ∀ x ∈ b.flags, env.disk x.1 = some q → ¬ Wanted env x) :
+    q ∉ (startup ord env b).cbs := by
+  intro hm
+  rcases (startup_inv ho env b g).2.2.1 q hm with h | ⟨x, hx, hw, hd⟩
+  · exact hq h
+  · exact hoff x hx hd hw
+
+/-- **flag_tracks.**  A successful `load` leaves the plugin's flag set (so the next start loads it
+again); an `unload` that finds the plugin leaves its flag cleared. -/
+theorem flag_tracks (ord : Ord) (b : Bot) (name : Name) (p : Plugin) (f : Faults) :
+    ((loadB ord b name (some p) f).1 = .success →
+      (∃ x ∈ (loadB ord b name (some p) f).2.flags, x.1 = p.name) ∧
+      ∀ x ∈ (loadB ord b name (some p) f).2.flags, x.1 = p.name → x.2 = true) ∧
+    (isOwnerName name = false → ∀ old, getCallback b.cbs name = some old →
+      (∃ x ∈ (unloadB b name f).2.flags, x.1 = old.name) ∧
+      ∀ x ∈ (unloadB b name f).2.flags, x.1 = old.name → x.2 = false) := by
+  constructor
+  · intro hs
+    unfold loadB at hs ⊢
+    simp only at hs ⊢
+    rw [if_pos hs]
+    exact registerPlugin_set _ _ _
+  · intro hno old hold
+    unfold unloadB
+    simp only [hno, Bool.false_eq_true, if_false, hold]
+    exact registerPlugin_set _ _ _
 
 /-! ### several networks -/
 
@@ -280,6 +331,10 @@ example : addCallback id [pOwner, pB, pMisc] pA = .ok [pOwner, pA, pB, pMisc] :=
 /-- rejected, list unchanged: B' → A → B' -/
 example : addCallback id [pOwner, pA, pMisc] pB' = .error (.assertion, [pOwner, pA, pMisc]) := by decide
 example : isOwnerName "OWNER".toList = true := by decide
+/-- start-up: A's flag is on, B's is off, Misc is important: A and Misc are loaded, B is not -/
+example : (startup id ⟨fun n => if n = ['A'] then some pA else if n = ['B'] then some pB else
+      if n = pMisc.name then some pMisc else none, fun _ => {}, [pMisc.name], true⟩
+    ⟨[pOwner], [(['A'], true), (['B'], false), (pMisc.name, false)]⟩).cbs = [pOwner, pA, pMisc] := by decide
 example : Good [pOwner, pA, pB, pMisc] := by
   refine ⟨by decide, ?_⟩
   have e : edgesOf [pOwner, pA, pB, pMisc] =
@@ -310,11 +365,12 @@ reloaded name.  (The old instance has been `die()`d before the new one is built;
 one first would run two instances of a plugin side by side, which plugins holding a named
 scheduler event or an HTTP hook cannot bear.) -/
 theorem reload_failure_partial (ord : Ord) (cbs : Cbs) (name : Name) (p : Plugin) (f : Faults)
-    (h1 : f.importError = false) (h2 : f.importOther = false) (hf : f.ctorRaises = true)
+    (h1 : f.importError = false) (h2 : f.importOther = false) (h3 : f.deprecated = false)
+    (hf : f.ctorRaises = true)
     (hno : isOwnerName name = false) (hl : ((removeCallback cbs name).1).isEmpty = false) :
     reload ord cbs name (some p) f = (.exception, (removeCallback cbs name).2) := by
   unfold reload
-  simp [hno, hl, h1, h2, hf]
+  simp [hno, hl, h1, h2, h3, hf]
 
 /-- **self_reference_rejected.**  A plugin that names itself in `callBefore` or `callAfter` (in any
 capitalisation) declares a cycle of length one: it is refused and the list stays as it was. -/
